@@ -112,9 +112,16 @@ func (m *RWMutexState) Lock() {
 		return
 	}
 	m.init(x)
-	m.pendingW++
-	x.point(&pend{desc: fmt.Sprintf("Lock rw#%d", m.id), ready: func() bool { return !m.writer && m.readers == 0 }})
-	m.pendingW--
+	// phase 1: the call arrives (always enabled). Only a writer that has really arrived and found
+	// the lock held counts as pending (and blocks new readers).
+	x.point(&pend{desc: fmt.Sprintf("Lock rw#%d", m.id)})
+	if m.writer || m.readers > 0 {
+		m.pendingW++
+		x.hbEvent(&m.hb, kPend, 0)
+		x.tracef("Lock rw#%d: waiting (pending writer)", m.id)
+		x.point(&pend{desc: fmt.Sprintf("Lock(wait) rw#%d", m.id), ready: func() bool { return !m.writer && m.readers == 0 }})
+		m.pendingW--
+	}
 	m.writer = true
 	x.acquire(m.vc)
 	x.acquire(m.rvc)
